@@ -228,11 +228,20 @@ impl IotaDID {
   fn normalize(mut did: CoreDID) -> CoreDID {
     let method_id = did.method_id();
     let (network, tag) = Self::denormalized_components(method_id);
-    if tag.len() == method_id.len() || network != Self::DEFAULT_NETWORK {
+    // The hex digits of the tag are the only part that `check_validity` accepts in either case.
+    let has_uppercase_tag: bool = tag.bytes().any(|byte| byte.is_ascii_uppercase());
+    let has_default_network: bool = tag.len() != method_id.len() && network == Self::DEFAULT_NETWORK;
+    if !has_uppercase_tag && !has_default_network {
       did
     } else {
+      let tag: String = tag.to_ascii_lowercase();
+      let normalized_method_id: String = if tag.len() == method_id.len() || has_default_network {
+        tag
+      } else {
+        format!("{network}:{tag}")
+      };
       did
-        .set_method_id(tag.to_owned())
+        .set_method_id(normalized_method_id)
         .expect("normalizing a valid CoreDID should be Ok");
       did
     }
